@@ -26,7 +26,7 @@ pub fn check() -> Check {
 }
 
 fn total_cases(t: Tier) -> u64 {
-    t.pick(30_000, 600_000)
+    t.pick(20_000, 600_000)
 }
 
 fn run(c: &Check, tier: Tier, seed: u64, t0: Instant) -> i32 {
